@@ -45,7 +45,7 @@ type nodeStats struct {
 	Samples                                                                                                                                                                             []string
 	Notes                                                                                                                                                                               []string
 	Scenarios                                                                                                                                                                           int
-	C08Compared, C08Resets, TwoRoundScenarios, C08InDealsWindow, ReinitProbes, Reinits, FarFutureProposals                                                                                                  int
+	C08Compared, C08Resets, TwoRoundScenarios, C08InDealsWindow, ReinitProbes, Reinits, FarFutureProposals, ProposedAfterFailure                                                                                                  int
 	CancelledRounds                                                                                                                                                                     int
 	C08Late, C08StampsMoved, PrefilledResults, JSONVariants, KeylessReinits, ReinitVariants, ForgedOwnName, CollectedHere, C08RealLoop, ProposalsStored, ReorderedReinits, ErrorResults int
 	StaleSignatures, ForgedAnnouncements, ForgedAnnouncementsNoRound, RekeyedRoundBoards, RekeyedRoundCopies                                                                            int
@@ -1094,7 +1094,14 @@ func (r *nodeRun) scenario(outDir string, n, t int, twoRounds bool) {
 			nd.silent = false
 			// the doomed batch's requests are dropped by everybody but the observer (whose pool the model mirrors)
 		}
-		c.proposeData(c.nodes[r.rng.Intn(n)], round, map[string][]byte{"after": []byte("signed after the failure")})
+		// "… the batch is cancelled, and in either case the round returns to idle and accepts the next proposal": the next
+		// proposal is made the way an operator makes one - through a node's own API
+		proposer := c.nodes[r.rng.Intn(n)]
+		if err := c.proposeData(proposer, round, map[string][]byte{"after": []byte("signed after the failure")}); err != nil {
+			r.mon(fmt.Sprintf("C06 accepts_next: after a batch cancelled by %d failure reports (n=%d,t=%d; round state on the proposer %s) node %d cannot propose the next batch through its API: %s", n-t+1, n, t, c.roundState(proposer, round), proposer.idx, truncate(err.Error(), 160)))
+		} else {
+			r.st.ProposedAfterFailure++
+		}
 		pumpAll(20)
 		pumpAll(20)
 	}
